@@ -163,8 +163,9 @@ def base_field_src(fam, f, variant):
         if "inst_mut" in f:
             return "Ref(%s)" % f["_proto_var"]       # bound by class_src before the class statement
         if "inst" in f:
-            return "Ref(%s(%s))" % (cls, ", ".join("%s=%r" % kv for kv in sorted(f["inst"].items())))
-        return "Ref(%s)" % cls
+            inst = "%s(%s)" % (cls, ", ".join("%s=%r" % kv for kv in sorted(f["inst"].items())))
+            return inst if f.get("implicit") else "Ref(%s)" % inst
+        return cls if f.get("implicit") else "Ref(%s)" % cls
     if t == "sel":
         opts = []
         for k, o in f["options"].items():       # in the (random) order of the spec: not necessarily ascending
